@@ -223,6 +223,16 @@ def handle (toks : List String) : String :=
         okF (flat2 N ((lmax + 1) ^ 2) fun j i => E3nnVerif.Legendre.legendreGrid E3nnVerif.Generated.legTable N j i)
       else "error:bad-op"
     | _, _ => "error:bad-op"
+  | ["shab", kind, lmax, a, b] =>
+    -- model of spherical_harmonics_alpha_beta(range(lmax+1), α, β, kind) at one point
+    match parseKind kind, lmax.toNat?, floats [a, b] with
+    | some kind, some lmax, some ab =>
+      if lmax ≤ E3nnVerif.Generated.legLmax then
+        okF (Array.ofFn (n := (lmax + 1) ^ 2) fun i =>
+          let l := Nat.sqrt i.val
+          E3nnVerif.Legendre.shAlphaBeta E3nnVerif.Generated.legTable kind l (i.val - l ^ 2) (ab.getD 0 0.0) (ab.getD 1 0.0))
+      else "error:bad-op"
+    | _, _, _ => "error:bad-op"
   | ["shabuf", l, M] =>
     match l.toNat?, M.toNat? with
     | some l, some M => okF (flat2 M (2 * l + 1) fun a m => sha l M a m)
